@@ -10,7 +10,8 @@ atomicity stream of C10 under allocation failure.
 
 Round 2: LKCD, SADUMP and s390 dumps are generated (tools/dumpgen.py write_lkcd /
 write_sadump / write_s390); objects have clones (per-context buffers); the faulted
-call may be an open on an object whose earlier open failed, a change of
+call may be an open on an object whose earlier open failed or that has another
+dump open, a change of
 arch.page_size / cache.size on an open dump, the first query of a lazily built
 attribute (memory.pagemap, file.pagemap, max_pfn) or per_ctx_alloc itself; the
 follow-up puts the attribute back, sweeps every page through every clone and
@@ -180,6 +181,9 @@ def scenarios(R, dumps, first):
     add("open-s390", "open {n} {t} %s -1 %s" % (z[0], pl(z[1])), "s390")
     nm, tgt = rng.choice([("lkcd", lk), ("sadump", sa), ("dd", dd), ("elf", e)])
     add("reopen-junk-" + nm, "open {n} {t} %s -1 %s 1 %d !%s" % (tgt[0], pl(tgt[1]), rng.randint(0, 1), junk[0]), nm)
+    # ... and on an object that has another dump open (the first one must be closed, whatever fails later)
+    (n1, first_d), (n2, second_d) = rng.sample([("lkcd", lk), ("sadump", sa), ("dd", dd), ("elf", e), ("s390", z)], 2)
+    add("reopen-%s-%s" % (n1, n2), "open {n} {t} %s -1 %s 1 %d %s" % (second_d[0], pl(second_d[1]), rng.randint(0, 1), first_d[0]), n2)
     add("clone0-lkcd-gen", "clone0 {n} {t} %s %s" % (lk[0], pl(lk[1])), "lkcd")
     add("clonex-lkcd-gen", "clonex {n} {t} %s %s" % (lk[0], pl(lk[1])), "lkcd")
     rd = list(lk[1])
@@ -485,7 +489,8 @@ def run(R):
                evaluations=len(cases) + len(rl) + len(lines), distinct_nontrivial=injected,
                rule="for each scenario (create; clone x flags x per-context slots on fresh and opened objects; open ELF/ELF-nommap/diskdump/"
                     "flattened/generated LKCD (v2..v10, raw+RLE, frame gaps)/SADUMP (single, media)/s390 [+ LKCD/SADUMP test dumps of the tree "
-                    "when present], also on an object that has clones and on one whose earlier open of a non-dump failed; read MACHPHYS/KPHYS/"
+                    "when present], also on an object that has clones, on one whose earlier open of a non-dump failed and on one that has a dump of "
+                    "another format open; read MACHPHYS/KPHYS/"
                     "KVADDR incl. unaligned ELF through the read cache, compressed diskdump pages, LKCD/SADUMP/s390 pages through a clone; "
                     "arch.page_size and cache.size changed on an open dump with clones and put back; first query of memory.pagemap / "
                     "file.pagemap / max_pfn (bits compared with the generator's frame sets); per_ctx_alloc on 1..3 contexts; "
@@ -504,8 +509,7 @@ def run(R):
                           "mem_pagemap_revalidate (locks and region-array growth); all other allocation sites are enumerated and observed, not proved",
                           "implementation-only (no model): open/read of LKCD, SADUMP, s390; re-open after a failed open; cache.size changes; "
                           "file.pagemap and max_pfn queries; the LKCD page index (search_page_desc)",
-                          "the re-open scenario starts from an object whose earlier open FAILED (a file that is not a dump); re-opening over a "
-                          "successfully opened dump is C15's recorded finding reopen-open-context (the previous format is not released)",
+
                           "single-threaded: lock findings are self-deadlocks / holds at return, not races (C05)"]
 
 
